@@ -28,7 +28,8 @@ ASSUMPTIONS = [
 ]
 REPORT_COUNTERS = ["graphs", "node_calls", "trees_compared", "graphs_depth2_inherited_walker",
                    "override_under_inherited_walker", "selfname_walkers", "recurse_sites_run", "late_modifications_applied", "trees_compared_after_late_change",
-                   "registrations_made_during_a_call", "registrations_failed_and_undone_during_a_call"]
+                   "registrations_made_during_a_call", "registrations_failed_and_undone_during_a_call",
+                   "calls_while_the_function_could_not_be_built"]
 
 INPUTS = [
     ["v", 1], ["v", "s"],
@@ -199,6 +200,7 @@ def check_case(spec, res):
                                   acceptable=repr(exp)[:200])
     res.count("registrations_made_during_a_call", g.ondemand_applied)
     res.count("registrations_failed_and_undone_during_a_call", g.ondemand_failed)
+    res.count("calls_while_the_function_could_not_be_built", g.ondemand_retried)
     g.cleanup()
 
 
